@@ -23,5 +23,5 @@ def run(ctx):
         ctx.notes.append("part (b) not built yet")
     ctx.exhaustive = False
     ctx.assumptions += ["zone names: the loopback interface's name; numeric zones: indices that name no interface on this host"]
-    return vlib.finish(ctx, "exploration" if ctx.traces == 0 else "model_checking",
+    return vlib.finish(ctx, "exploration",
                        "cases: every conversion vector of specs/Addrs.tla (address family x ports x zones, invalid lengths, unsupported networks) round-tripped through the real conversion functions; distinct = distinct vectors")
